@@ -11,7 +11,7 @@ func init() {
 		ID: "C03",
 		Rule: "rapid histories of the world machine weighted to concurrent undelegations (precompile path with per-chain LayerZero nonces, native path with multi-operator messages) over operators in every lifecycle state, with block/epoch ends; " +
 			"non-trivial = at least 2 overlapping pending records, at least one hold observed and at least one release; distinct = hash of the (kind, outcome) sequence",
-		Gen:        GenOpts{Weights: w, HostilePct: 6, ExtremePct: 0, MaxDt: 35, Anchor: true, Focus: true, Tempos: []int{2, 5, 12, 35}, CapBits: 90, ClampBits: 50},
+		Gen:        GenOpts{Weights: w, HostilePct: 6, ExtremePct: 0, MaxDt: 35, Anchor: true, Focus: true, Tempos: []int{2, 5, 12, 35}, CapBits: 90, ClampBits: 40},
 		MinSteps:   25,
 		MaxSteps:   80,
 		Config:     worldConfig,
@@ -40,7 +40,7 @@ func init() {
 	w := map[string]int{"nextBlock": 12, "depositNST": 8, "withdrawNST": 2, "delegate": 12, "undelegate": 16, "nstUpdate": 12, "slash": 2, "optOut": 1, "setKey": 1}
 	base := *worldProps["C03"]
 	base.Name = "C03NST"
-	base.Gen = GenOpts{Weights: w, HostilePct: 4, ExtremePct: 0, Anchor: true, Tempos: []int{2, 6, 20}, ForceFocus: 3, FocusPct: 92, CapBits: 90, ClampBits: 50}
+	base.Gen = GenOpts{Weights: w, HostilePct: 4, ExtremePct: 0, Anchor: true, Tempos: []int{2, 6, 20}, ForceFocus: 3, FocusPct: 92, CapBits: 90, ClampBits: 40}
 	base.MinSteps, base.MaxSteps = 20, 60
 	registerWorldProp(&base)
 }
